@@ -27,7 +27,8 @@ class Spec:
 
     def draw_case(self, rng):
         spec = e3.draw_bound_spec(rng, self.classes, self.d_max, self.clouds,
-                                  self.networks)
+                                  self.networks,
+                                  getattr(self, 'scale_ok', False))
         ops = e3.draw_ops(rng, spec, self.profile)
         return dict(bound=spec, ops=self.finish_ops(rng, spec, ops),
                     qseed=rng.randrange(2**31))
